@@ -1,5 +1,7 @@
 package memberlist
 
+import "bytes"
+
 func init() {
 	vRegister("H_C17_Sequence", H_C17_Sequence)
 	vRegister("H_C17_Rotation", H_C17_Rotation)
@@ -162,4 +164,47 @@ func H_C17_Rotation() {
 	vAssert(vHasKey(b.GetKeys(), a.GetPrimaryKey()), "c17.rot.a-to-b")
 	vAssert(vHasKey(a.GetKeys(), b.GetPrimaryKey()), "c17.rot.b-to-a")
 	vCover("c17.rotation")
+}
+
+func init() {
+	vRegister("H_C17_RotationTraffic", H_C17_RotationTraffic)
+}
+
+// C17 rotation with real traffic: at every reachable pair of rotation positions a message sealed by one node
+// under its primary key is opened by the other, for small messages and for messages larger than a
+// UDP packet buffer, as push/pull state can be.
+func H_C17_RotationTraffic() {
+	vUnwind(80000)
+	ks := vDistinctKeys(2)
+	oldK, newK := ks[0], ks[1]
+	mk := func(pos int) *Keyring {
+		r, _ := NewKeyring(nil, oldK)
+		if pos >= 1 {
+			_ = r.AddKey(newK)
+		}
+		if pos >= 2 {
+			_ = r.UseKey(newK)
+		}
+		if pos >= 3 {
+			_ = r.RemoveKey(oldK)
+		}
+		return r
+	}
+	pa, pb := vPick(4), vPick(4)
+	if pa > pb+1 || pb > pa+1 {
+		return
+	}
+	a, b := mk(pa), mk(pb)
+	size := []int{10, 66000}[vPick(2)]
+	msg := make([]byte, size)
+	msg[0], msg[size-1] = vU8(), vU8()
+	ev := encryptionVersion(vPick(2))
+	var buf bytes.Buffer
+	vAssert(encryptPayload(ev, a.GetPrimaryKey(), msg, nil, &buf) == nil, "c17.traffic.seal")
+	plain, err := decryptPayload(b.GetKeys(), buf.Bytes(), nil)
+	vAssert(err == nil, "c17.traffic.peer-can-open")
+	if err == nil {
+		vAssert(len(plain) == size && plain[0] == msg[0] && plain[size-1] == msg[size-1], "c17.traffic.intact")
+	}
+	vCover("c17.traffic")
 }
